@@ -37,3 +37,23 @@ def make(env, cls, elems):
 def other_class(cls):
     return {'SO2': 'SE2', 'SE2': 'SO2', 'SO3': 'SE3', 'SE3': 'SO3', 'Quaternion': 'Twist3', 'UnitQuaternion': 'SO3',
             'Twist2': 'Twist3', 'Twist3': 'Twist2', 'Plucker': 'Twist3', 'SpatialVelocity': 'SpatialForce'}[cls]
+
+
+def concrete_element(env, cls, k):
+    """a valid element with concrete (numeric) content, distinct for distinct k: used where the operation returns
+    booleans or branches on every entry, so that symbolic content would only multiply paths"""
+    np = env.np
+    import math
+    th = 0.3 + 0.4 * k
+    c, s = math.cos(th), math.sin(th)
+    if cls == 'SO2': return np.array([[c, -s], [s, c]])
+    if cls == 'SO3': return np.array([[c, -s, 0], [s, c, 0], [0, 0, 1]]) @ np.array([[1, 0, 0], [0, 0.8, -0.6], [0, 0.6, 0.8]])
+    if cls == 'SE2': return np.array([[c, -s, 1.0 + k], [s, c, -2.0 * k], [0, 0, 1]])
+    if cls == 'SE3':
+        T = np.eye(4)
+        T[:3, :3] = np.array([[c, -s, 0], [s, c, 0], [0, 0, 1]]) @ np.array([[1, 0, 0], [0, 0.8, -0.6], [0, 0.6, 0.8]])
+        T[:3, 3] = [1.0 + k, 0.5 * k, -1.0]
+        return T
+    if cls == 'UnitQuaternion': return np.array([c, 0.6 * s, 0, 0.8 * s])
+    n = {'Quaternion': 4, 'Twist2': 3, 'Twist3': 6}[cls]
+    return np.array([float(k + 1) * (j + 1) * 0.25 for j in range(n)])
